@@ -117,3 +117,6 @@ func (g *GoodBOptOut) BindLocalStream(_ *interceptor.StreamInfo, w interceptor.R
 		return w.Write(h, p, a)
 	})
 }
+
+// the stored copies are read later (a dump, a retransmission): what makes keeping them matter
+func (s *stored) size() int { return len(s.pay) + len(s.hdr.CSRC) }
